@@ -100,6 +100,29 @@ def install(ctx, repo, probes):
                 ctx.cls("%s-before-1970")
     probes.wrap(repo.dumpers.TimePointDumper, "strftime", post, pre)
 
+    # the public entry TimePoint.strftime(fmt): same oracle, one level up
+    def pre_tp(args, kwargs):
+        return pre((None, args[0]), {})
+
+    def post_tp(snap, args, kwargs, text, exc):
+        fmt = args[1] if len(args) > 1 else kwargs.get("strftime_format")
+        if snap is None or not isinstance(fmt, str):
+            return
+        letters = [fmt[i + 1] for i in range(len(fmt) - 1) if fmt[i] == "%"]
+        if any(c not in SUPPORTED for c in letters):
+            ctx.ev("unsupported.post")
+            lib_error = getattr(repo.exceptions, "IsodatetimeError",
+                                ValueError)
+            if exc is None or not (isinstance(exc, ValueError) and
+                                   isinstance(exc, lib_error)):
+                ctx.violation("unsupported", "TimePoint.strftime(%r) with an "
+                              "unsupported directive returned %r / raised "
+                              "%r instead of the library's ValueError-"
+                              "derived error" % (fmt, text, exc), fmt=fmt)
+            return
+        post(snap, (None, args[0], fmt), {}, text, exc)
+    probes.wrap(repo.TimePoint, "strftime", post_tp, pre_tp)
+
     def post_strptime(snap, args, kwargs, q, exc):
         e = ctx.expect
         if e is None:
